@@ -268,6 +268,11 @@ func checkC01(w *World, r *Run) {
 	} else {
 		r.Anchor(ruleReadBack, "metadatapart.convertObject")
 	}
+	// the object cache sits between the API and the storage: a mutation it does not see (or
+	// does not invalidate) makes a later read return something other than the last write
+	if c := c20Context(w, r); c != nil {
+		checkCacheMutators(w, r, c)
+	}
 	r.NotCovered("content equality of what is read back, sizes/ETags as values, the comparison with a reference S3 model over histories; part-store compositions (C15–C19)")
 	_ = strings.ToLower
 }
